@@ -104,3 +104,38 @@ impl EntrySink<RootEntry<WorkClosed>> for RecSink {
         FlushWait::ready()
     }
 }
+
+/// an entry without a slot: keeps `Slot<T>` (and with it the guard -> boxed closure -> entry drop-glue cycle) out of
+/// the type when the real `append_and_close` wrapper is exercised
+pub struct Plain {
+    pub v: u64,
+}
+pub struct PlainClosed {
+    v: u64,
+}
+impl CloseValue for Plain {
+    type Closed = PlainClosed;
+    fn close(self) -> PlainClosed {
+        unsafe { CLOSES += 1 };
+        PlainClosed { v: self.v }
+    }
+}
+impl InflectableEntry for PlainClosed {
+    fn write<'a>(&'a self, w: &mut impl EntryWriter<'a>) {
+        w.value("v", &self.v);
+    }
+}
+impl EntrySink<RootEntry<PlainClosed>> for RecSink {
+    fn append(&self, entry: RootEntry<PlainClosed>) {
+        let mut w = W { v: None, s: None };
+        entry.write(&mut w);
+        unsafe {
+            APPENDS += 1;
+            LAST_V = w.v.unwrap_or(u64::MAX);
+            LAST_SLOT = None;
+        }
+    }
+    fn flush_async(&self) -> FlushWait {
+        FlushWait::ready()
+    }
+}
